@@ -34,7 +34,9 @@ def import_gscrib():
     if REPO not in sys.path:
         sys.path.insert(0, REPO)
     import logging
+    import warnings
     logging.disable(logging.CRITICAL)
+    warnings.filterwarnings("ignore")
     import gscrib
     here = os.path.realpath(os.path.dirname(gscrib.__file__))
     want = os.path.realpath(os.path.join(REPO, "gscrib"))
